@@ -45,6 +45,19 @@ impl Tree {
             Tree::Node(l, o, r) => format!("({} {} {})", l.print(vals, ops), ops[*o], r.print(vals, ops)),
         }
     }
+    /// three-address form: one statement per operator, operands are parameters `p{i}` or earlier results
+    fn steps(&self, ops: &[&str], out: &mut Vec<String>) -> String {
+        match self {
+            Tree::Leaf(i) => format!("p{i}"),
+            Tree::Node(l, o, r) => {
+                let a = l.steps(ops, out);
+                let b = r.steps(ops, out);
+                let name = format!("t{}", out.len());
+                out.push(format!("{name} := {a} {} {b}", ops[*o]));
+                name
+            }
+        }
+    }
     fn shape(&self) -> String {
         match self {
             Tree::Leaf(i) => format!("x{i}"),
@@ -224,6 +237,40 @@ fn check_infix(case: &Json, stats: &mut Stats) -> Verdict {
                 );
             }
         }
+        // the table's grouping computed one operator at a time from parameters (no constant, no composite
+        // expression for the folding pass to rewrite): the composite forms must give what the steps give
+        let type_of = |v: &str| match v {
+            "true" | "false" => "bool",
+            v if v.contains('.') => "float",
+            _ => "int",
+        };
+        if (exp_key.starts_with("value") || exp_key.starts_with("error ")) && !ops.iter().any(|o| matches!(*o, "&&" | "||")) {
+            let mut steps = vec![];
+            let result = expected.steps(&ops, &mut steps);
+            let params: Vec<String> = vals.iter().enumerate().map(|(i, v)| format!("p{i}: {}", type_of(v))).collect();
+            let ps: Vec<String> = (0..n).map(|i| format!("p{i}")).collect();
+            let ps: Vec<&str> = ps.iter().map(String::as_str).collect();
+            let stepwise = format!("f := ({}) -> any {{ {}; return {result}; }}; f({})", params.join(", "), steps.join("; "), vals.join(", "));
+            let composite = format!("f := ({}) -> any {{ return {}; }}; f({})", params.join(", "), flat(&ps, &ops, " "), vals.join(", "));
+            let grouped = format!("f := ({}) -> any {{ return {}; }}; f({})", params.join(", "), expected.print(&ps, &ops), vals.join(", "));
+            stats.evals(3);
+            let step_key = outcome_key(&stepwise);
+            for (text, how) in [(&composite, "unparenthesised, all operands parameters"), (&grouped, "parenthesised as the table groups it, all operands parameters")] {
+                let got = outcome_key(text);
+                if got != step_key {
+                    return fail(
+                        format!("C14:infix-steps:{}", ops.join("_")),
+                        format!("`{text}` ({how}) gives [{got}] but computing the table's grouping one operator at a time, `{stepwise}`, gives [{step_key}]"),
+                    );
+                }
+            }
+            if step_key != exp_key {
+                return fail(
+                    format!("C14:infix-steps:{}", ops.join("_")),
+                    format!("`{exp_text}` (constants) gives [{exp_key}] but `{stepwise}` gives [{step_key}]"),
+                );
+            }
+        }
         // the same chain with one operand at a time hidden behind a parameter (partially
         // constant chains are rebuilt by the folding pass; the grouping must survive it)
         for hide in 0..n {
@@ -298,6 +345,16 @@ fn check_template(case: &Json, stats: &mut Stats) -> Verdict {
             format!("`{prelude}{expected}` was meant to evaluate, got [{exp_key}]"),
         );
     }
+    if let Some(steps) = case["steps"].as_str() {
+        stats.eval();
+        let step_key = run_one(steps);
+        if step_key != exp_key {
+            return fail(
+                format!("C14:template-steps:{name}"),
+                format!("`{prelude}{expected}` gives [{exp_key}] but the same grouping computed one operator at a time, `{steps}`, gives [{step_key}]"),
+            );
+        }
+    }
     if got != exp_key {
         return fail(
             format!("C14:template:{name}"),
@@ -351,7 +408,8 @@ fn templates() -> Vec<Json> {
                     (format!("b: {ty}"), b.to_string(), a.to_string(), "b".to_string(), "right"),
                 ] {
                     let f = |body: String| format!("pf := ({params}) -> any {{ return {body}; }}; pf({args})");
-                    t.push(tpl(
+                    let short_circuit = matches!(op, "&&" | "||");
+                    let mut one = tpl(
                         "prefix-before-infix-param",
                         &format!("{pname} {op} {ty} {a} {b} {how}"),
                         pre,
@@ -359,8 +417,10 @@ fn templates() -> Vec<Json> {
                         &f(format!("({pfx}{va}) {op} {vb}")),
                         &[&f(format!("{pfx}({va} {op} {vb})"))],
                         false,
-                    ));
-                    t.push(tpl(
+                    );
+                    one["steps"] = json!(format!("pf := ({params}) -> any {{ t0 := {pfx}{va}; t1 := t0 {op} {vb}; return t1; }}; pf({args})"));
+                    t.push(one);
+                    let mut two = tpl(
                         "infix-then-prefix-param",
                         &format!("rhs-{pname} {op} {ty} {a} {b} {how}"),
                         pre,
@@ -368,7 +428,11 @@ fn templates() -> Vec<Json> {
                         &f(format!("{va} {op} ({pfx}{vb})")),
                         &[],
                         false,
-                    ));
+                    );
+                    if !short_circuit {
+                        two["steps"] = json!(format!("pf := ({params}) -> any {{ t0 := {pfx}{vb}; t1 := {va} {op} t0; return t1; }}; pf({args})"));
+                    }
+                    t.push(two);
                 }
             }
         }
@@ -502,7 +566,7 @@ pub fn run(session: &Session) -> i32 {
     session.set_extra("enumerated_cases", json!(cases.len()));
     session.run_enum(&C14, cases);
     session.finish(
-        "every ordered pair (361) and triple (6859) of the 19 infix value operators: operand values are searched in a pool of ints, bools and floats until the grouping prescribed by the 14-level table (all infix levels left-associative) gives an outcome (value, error kind or operand-type error) different from the other groupings; the unparenthesised text, with and without whitespace, must then give the table grouping's outcome. Templates: each prefix operator before and after each infix operator, postfix forms ([] () .k .f slicing) after prefix operators and against every infix operator, iterator-level operators against **, other levels and prefix operators, assignments against everything incl. right-associative chains of all 12 assignment operators, and unspaced multi-character operators (** vs * *, <- , <<=, $&& vs $&, $|| vs $|, :=/==, ...). Non-trivial = the table grouping was distinguished from at least one other grouping by value; distinct by operator sequence / template.",
+        "every ordered pair (361) and triple (6859) of the 19 infix value operators: operand values are searched in a pool of ints, bools and floats until the grouping prescribed by the 14-level table (all infix levels left-associative) gives an outcome (value, error kind or operand-type error) different from the other groupings; the unparenthesised text, with and without whitespace, with one operand and with all operands passed as parameters, must then give the table grouping's outcome, and so must the table's grouping computed one operator at a time (three-address form over parameters, which no peephole rewrite of a composite expression can touch). Templates: each prefix operator before and after each infix operator, postfix forms ([] () .k .f slicing) after prefix operators and against every infix operator, iterator-level operators against **, other levels and prefix operators, assignments against everything incl. right-associative chains of all 12 assignment operators, and unspaced multi-character operators (** vs * *, <- , <<=, $&& vs $&, $|| vs $|, :=/==, ...). Non-trivial = the table grouping was distinguished from at least one other grouping by value; distinct by operator sequence / template.",
         true,
         &["a chain whose groupings agree on every operand tried (e.g. a + b + c) is counted as indistinguishable, not as confirmed",
           "both sides of every comparison are evaluated by the implementation; the harness supplies only the grouping"],
